@@ -25,6 +25,11 @@ func allocDuring(f func()) uint64 {
 	return m1.TotalAlloc - m0.TotalAlloc
 }
 
+// bdb / ndb: bytes allocated by Parse + AllHeaders may not exceed this (the
+// walkers keep a few words per page or slot; observed maxima are below a
+// tenth of it).
+func dbAllocBound(n int) uint64 { return 1<<20 + 64*uint64(n) }
+
 // rpm header: bytes allocated by Parse+Load may not exceed this.
 func rpmAllocBound(n int) uint64 { return 256<<10 + 256*uint64(n) }
 
